@@ -9,6 +9,7 @@ CARGO_TARGET_DIR=target-small cargo build --release --offline --quiet --features
 CARGO_TARGET_DIR=target-big cargo build --release --offline --quiet --features big-elements
 CARGO_TARGET_DIR=target-huge cargo build --release --offline --quiet --features huge-elements
 CARGO_TARGET_DIR=target-plain cargo build --profile plain --offline --quiet
+CARGO_TARGET_DIR=target-feat cargo build --release --offline --quiet --features lib-features
 ( MIRIFLAGS="-Zmiri-tree-borrows -Zmiri-disable-isolation" CARGO_TARGET_DIR=target-miri cargo +nightly miri run --offline --quiet --bin vh -- WARMUP ) || echo "warning: miri warm-up failed (checks will retry)"
 ( RUSTFLAGS="-Zsanitizer=thread" CARGO_TARGET_DIR=target-tsan cargo +nightly build --release --offline --quiet -Zbuild-std --target x86_64-unknown-linux-gnu --bin vh ) || echo "warning: tsan warm-up failed (checks will retry)"
 ( RUSTFLAGS="-Zsanitizer=address -Cforce-frame-pointers=yes" CARGO_TARGET_DIR=target-asan cargo +nightly build --release --offline --quiet --target x86_64-unknown-linux-gnu --bin vh ) || echo "warning: asan warm-up failed (checks will retry)"
